@@ -390,6 +390,8 @@ class Reshape(ArrayExpr):
 
         # Apply slice to input, then reshape
         sliced_input = new_collection(self.array)[tuple(input_index)]
+        if sliced_input.ndim == 0 or not new_out_shape:
+            return None  # integer indices consumed every axis: nothing left to reshape
         result = Reshape(sliced_input.expr, new_out_shape)
 
         # Re-apply None insertions if any using expand_dims
